@@ -27,14 +27,15 @@ def build_and_check_props(ctx: Ctx, props_files, extra_targets=()):
 
 
 def translate_engine_sources(ctx: Ctx) -> bool:
-    """the engine glue, the history bookkeeping and the operation handlers, regenerated from the tree under test by the three
+    """the engine glue, the history bookkeeping, the operation handlers and the store's save/load, regenerated from the tree under test by the three
     translators (each fail closed); False when one of them rejects the source (reported as a broken obligation)"""
     import tr_engine
     import tr_handlers
     import tr_history
     from lib.vf import REPO
     ok, info = True, {}
-    for mod, stem in ((tr_history, "HistorySrc"), (tr_handlers, "HandlersSrc"), (tr_engine, "EngineSrc")):
+    import tr_store
+    for mod, stem in ((tr_history, "HistorySrc"), (tr_handlers, "HandlersSrc"), (tr_engine, "EngineSrc"), (tr_store, "StoreSrc")):
         try:
             files, meta = mod.gen(str(REPO))
         except Exception as e:      # noqa: BLE001
